@@ -8,7 +8,7 @@ HOOK_COMMITS = ["1b1564e", "aa5657f", "9d07bfc", "a89336f", "ba367d3"]
 CHECKS = {
  "C15": ("exploration",
    "property-based testing (proptest): differential against an independent JWK/thumbprint recomputation and independent (OpenSSL + ring) signature verification, round-trip laws",
-   "Generated-input search over fresh keys of all 7 types and random messages; every JWK member, the RFC 7638 thumbprint text, the signature length/validity, algorithm compatibility and PEM/DER round trips are judged by oracles that never call acme_common. Rare encodings (leading-zero coordinates / signature components) are reached by volume and counted; a run with an empty expected class is inconclusive (exit 2).",
+   "Generated-input search over fresh keys of all 7 types and random messages; every JWK member, the RFC 7638 thumbprint text, the signature length/validity, algorithm compatibility and PEM/DER round trips are judged by oracles that never call acme_common. EC keys are also loaded from hand-built SEC1 / PKCS#8 files with the public point in compressed, hybrid or uncompressed form. Rare encodings (leading-zero coordinates / signature components) are reached by volume and counted; a panic of the library is a violation; a run with an empty expected class is inconclusive (exit 2).",
    "Trusts OpenSSL's SPKI encoding and OpenSSL/ring verification primitives; keys come from OpenSSL's RNG, so a seed fixes messages and load forms, not keys (failing keys are stored in the replay file).",
    "DESIGN.md 4 C15"),
 }
@@ -74,7 +74,7 @@ CHECKS["C11"] = ("exploration",
    "DESIGN.md 4 C11, appendix D")
 CHECKS["C13"] = ("exploration",
    "property-based testing (proptest): generated mode/owner/umask settings; stat observed by the in-crate probe after scripted write histories and by the hook recorder at file-post-create / file-post-edit / post-operation in real daemon runs; oracle = mode & ~umask and ids resolved independently",
-   "All 9-bit modes, users/groups by name and number, five umasks, creations and rewrites of the three file kinds.",
+   "All 9-bit modes, users/groups by name and number (including names that are both a user and a group with different numbers), five umasks, creations and rewrites of the three file kinds, files that pre-exist with another owner, and directories that vanish between two writes (what exists afterwards must still have the configured mode and owner).",
    "Runs as root (chown observable); only users/groups present in the image.",
    "DESIGN.md 4 C13")
 CHECKS["C10"] = ("exploration",
@@ -84,27 +84,27 @@ CHECKS["C10"] = ("exploration",
    "DESIGN.md 4 C10, appendix C")
 CHECKS["C12"] = ("exploration",
    "schedule-perturbing property testing (proptest): generated sharing patterns of certificates over accounts/endpoints, seeded per-response delays and runtime thread counts, scenarios forcing the account write-lock paths; oracles: bounded completion (watchdog, re-run once), request counts per (account, endpoint) against a model, nonce ledger of the mock CA",
-   "Interleavings are sampled by moving the await points (response delays) and the number of worker threads; every renewal must end and succeed, registrations / roll-overs / contact updates happen exactly once per (account, endpoint), and no nonce is unknown or consumed twice.",
+   "Interleavings are sampled by moving the await points (response delays) and the number of worker threads; every renewal must end and succeed, registrations / roll-overs / contact updates happen exactly once per (account, endpoint), and no nonce is unknown or consumed twice, also when answers are cut in the middle of the body and the renewal is repeated.",
    "The harness does not own the tokio schedule: a lock-order bug needing one specific interleaving can be missed; a seed reproduces the plan, not necessarily the interleaving.",
    "DESIGN.md 4 C12, 6")
 CHECKS["C16"] = ("exploration",
    "property-based testing (proptest) of the shipped tacd binary: generated domains / digests / key types / listeners / input channels / client ALPN lists; oracle = harness TLS client (OpenSSL) + own DER walker applying the RFC 8737 certificate rules",
-   "Each case starts the release build of tacd and performs several handshakes with generated ALPN offers; the certificate, the negotiated protocol and the refusal of foreign-only offers are checked.",
+   "Each case starts the release build of tacd and performs several handshakes with generated ALPN offers (clients offering every TLS version or TLS 1.2 at most); the certificate, the negotiated protocol and the refusal of foreign-only offers are checked.",
    "Clients without any ALPN extension are not judged (the property speaks of clients that offer other protocols).",
    "DESIGN.md 4 C16")
 CHECKS["C17"] = ("exploration",
-   "exhaustive enumeration (thorough) / enumeration plus proptest sampling (quick) of hostile connection histories against the shipped tacd binary; oracle = process state and a subsequent valid acme-tls/1 handshake judged by C16's certificate rules",
-   "All ordered selections of up to 4 behaviours from a 7-item catalogue (2800 per listener kind in thorough, all of length <= 2 plus 150 random longer ones in quick) are replayed against a fresh release-profile tacd.",
+   "exhaustive enumeration plus proptest-generated histories of hostile connection behaviours against the shipped tacd binary; oracle = process state and a subsequent valid acme-tls/1 handshake judged by C16's certificate rules",
+   "All ordered selections of up to 4 behaviours from a 7-item catalogue (2800 per listener kind in thorough, all of length <= 2 plus 150 random longer ones in quick) are replayed against a fresh release-profile tacd; generated histories of 1..5 steps add four heavier behaviours (200-octet / non-UTF-8 ALPN names, 400 quick failed connections from 8 threads, descriptor exhaustion under RLIMIT_NOFILE = 64).",
    "Catalogue-bounded: behaviours outside the catalogue are not explored.",
    "DESIGN.md 4 C17")
 CHECKS["C18"] = ("exploration",
-   "exhaustive enumeration of root-certificate source combinations x server chains x file states against a TLS-wrapped mock CA; oracle = trust model (right root listed or in the system store, chain valid for the host) vs requests seen by the CA and the attempt's outcome",
-   "The three sources (command line, endpoint, global) with right / decoy / absent / unreadable / malformed files, four kinds of server chain and three system stores are enumerated; no request (hence no JWS) may reach an endpoint whose chain does not validate, and every source alone must be honoured.",
+   "exhaustive enumeration of root-certificate source combinations x server chains x file states, plus proptest-generated histories in which the root file changes between the attempts of one daemon, against a TLS-wrapped mock CA; oracle = trust model (right root listed or in the system store, chain valid for the host) vs requests seen by the CA and the attempt's outcome",
+   "The three sources (command line, endpoint, global) with right / decoy / absent / unreadable / malformed files, four kinds of server chain and three system stores are enumerated; no request (hence no JWS) may reach an endpoint whose chain does not validate, and every source alone must be honoured; two endpoints in one daemon (different roots, or the same URL with and without the root) and a root file that is replaced, damaged or removed between attempts are judged the same way, attempt by attempt.",
    "Finite catalogue of chain defects (unknown root, other host name, expired); OpenSSL performs the path validation on the daemon side.",
    "DESIGN.md 4 C18")
 CHECKS["C20"] = ("exploration",
    "property-based testing (proptest) of the shipped default_hooks.toml through the real daemon against a validating mock CA (reads the http-01 file through the documented mapping, performs a real acme-tls/1 handshake with the documented address or socket) over several consecutive issuances; oracle = validation success, leftovers scan, git blobs",
-   "Groups http-01-echo, tls-alpn-01-tacd-tcp, tls-alpn-01-tacd-unix alone and with git, environment variables set or defaulted, 1..3 identifiers, 1..3 issuances in one run; after each issuance proof files, responder processes, pid files and sockets must be gone and git must hold every stored file.",
+   "Groups http-01-echo, tls-alpn-01-tacd-tcp, tls-alpn-01-tacd-unix alone and with git, environment variables set or defaulted, 1..3 identifiers, 1..3 issuances in one run; the CA's tls-alpn-01 validator offers every TLS version or TLS 1.2 at most; after each issuance proof files, responder processes, pid files and sockets must be gone and git must hold every stored file.",
    "HTTP_ROOT default (/var/www) and TACD_PORT default (5001) are not exercised in parallel runs; the CA is patient for 5 s (tacd daemonises before it listens).",
    "DESIGN.md 4 C20")
 PENDING = {}
